@@ -74,11 +74,26 @@ PROPS["C20"] = loop("fault_enumeration",
     "Fault enumeration: for each sampled schedule the fault-free run counts its driver calls n, then the run is repeated n times with call k returning an error; the loop must return that error, write nothing afterwards and stop within 64 calls.",
     "runtime monitoring with fault injection at every driver call in turn; oracle on the boundary log", evaluations=("fault_runs",))
 
+PROPS["C17"] = {
+    "engine": "systemd", "level": "exploration", "evaluations": ["patterns_lists"],
+    "rule": "one evaluation = one list of exclude patterns pushed through the real build_service_text and decoded back; exhaustive over every Unicode scalar value except NUL as a one-character pattern and over every pair (thorough: triple) of 44 syntax-relevant characters, plus seeded random strings and lists of 1-4 patterns; "
+            "distinct = distinct pattern lists (every case differs from the identity encoding in at least the surrounding line, so all are non-trivial)",
+    "floors": {"quick": {"single_scalar_values": 1112063, "syntax_pairs": 1900}, "thorough": {"single_scalar_values": 1112063, "syntax_triples": 85000}},
+    "assumptions": ["the decoder implements systemd's documented rules (word splitting on space/tab/newline/CR, quotes anywhere in a word, C unescaping with unknown escapes kept, %% and % specifiers, $$ / ${VAR} / whole-word $VAR against an empty environment)",
+                    "the ';' command-separator rule is not modelled (not among the rules the property enumerates)"],
+    "level_text": "Independent decoder of systemd's ExecStart rules applied to the text the real code generates; exact argv comparison, byte for byte. Exhaustive on single scalar values and on pairs of syntax-relevant characters, sampled beyond.",
+    "level_note": "Trusted: the decoder (written from systemd.service(5)/systemd.syntax(7), self-tested on hand-written lines at start-up) and the build_service_text wrapper hook.",
+    "design_ref": "3 C17", "technique": "runtime monitoring: differential round trip of the real escaper through an independent reference decoder, exhaustive sub-spaces",
+    "exhaustive_counter": "single_scalar_values", "exhaustive_text": "all 1,112,063 non-NUL Unicode scalar values as one-character patterns; all pairs over the syntax-relevant characters",
+}
+
 ENGINES = [
     {"name": "mapper", "path": "/verif/harness/src/mapper_mon.rs", "serves_properties": ["C01", "C02", "C03", "C04", "C05", "C06", "C07", "C08", "C09", "C19"],
      "kind_free_text": "online monitors around Mapper::step/release_all; seeded random walks with frontier restarts from hook snapshots"},
     {"name": "loop", "path": "/verif/harness/src/loop_mon.rs", "serves_properties": ["C10", "C11", "C12", "C20"],
      "kind_free_text": "the real per-device loop under a scripted world (virtual clock, boundary log, fault injection) + offline log checker"},
+    {"name": "systemd", "path": "/verif/harness/src/systemd_mon.rs", "serves_properties": ["C17"],
+     "kind_free_text": "real build_service_text output decoded by an independent ExecStart decoder"},
 ]
 
 NOT_APPLICABLE = [
